@@ -128,6 +128,17 @@ def run_handles(out, tier):
                     'must violate: %s' % r2.violated)
         if not r2.violated:
             raise Machinery('NcHandles invariants are not sharp')
+        # schedules of ANY length: with the history hidden by a VIEW the state
+        # space of three objects is finite and TLC visits all of it
+        r3 = need_ok(run_tlc('NcHandles_MC', cfg='NcHandles_All.cfg',
+                             workers=4, timeout=900,
+                             env={'PNC_STALE': '0', 'PNC_MAXSTEPS': 0,
+                                  'PNC_EMIT': '0'}), 'NcHandles_All')
+        out.add_tlc('NcHandles_MC, complete state graph of 3 objects '
+                    '(VIEW without the history): schedules of any length',
+                    r3, 'depth of the state graph %d' % r3.depth)
+        if r3.violated:
+            out.model_violation(r3, 'NcHandles_All')
         # 2. replay -----------------------------------------------------------
         # maximal schedules: append a final collect so pending garbage is
         # finalised while other files are still open, then re-read
